@@ -69,6 +69,33 @@ theorem squash_encloses : EncLaw Local.squash := Local.encLaw_squash
 theorem compressor_encloses (near : Int) : EncLaw (Local.compressor near) := Local.encLaw_compressor near
 theorem identity_encloses : EncLaw id := encLaw_id
 
+/-- the strategies of the index model ARE C17's models (`Hts.Model.Merge`), carried over to integer
+virtual offsets by `v ↦ (v / 65536, v % 65536)` and back by `vOff` -/
+theorem strategies_are_C17 :
+    Local.adjacent = Local.lift Hts.Model.Merge.adjacent ∧ Local.squash = Local.lift Hts.Model.Merge.squash ∧
+      ∀ near, Local.compressor near = Local.lift (Hts.Model.Merge.compressor near) :=
+  ⟨rfl, rfl, fun _ => rfl⟩
+
+/-- the bridge: a strategy of C17's model that loses no chunk (`enclosedBy`, proved for Adjacent, Squash
+and every Compressor in Hts.Lemmas.MergeEnc) satisfies `EncLaw` after the carry-over -/
+theorem encLaw_of_C17 (s : List Hts.Model.Merge.Chunk → List Hts.Model.Merge.Chunk)
+    (hs : ∀ ms, Hts.Model.Merge.SortedB ms → ∀ m, m ∈ ms → Hts.Model.Merge.enclosedBy (s ms) m) :
+    EncLaw (Local.lift s) := Local.encLaw_lift s hs
+
+/-- the two laws are different.  Losing no CHUNK (what C04 needs) implies losing no POSITION (C17's
+`*_covers`) … -/
+theorem enclosure_implies_coverage (s : List Hts.Model.Merge.Chunk → List Hts.Model.Merge.Chunk)
+    (cs : List Hts.Model.Merge.Chunk) (h : ∀ c, c ∈ cs → Hts.Model.Merge.enclosedBy (s cs) c) (p : Int)
+    (hp : Hts.Model.Merge.covers cs p) : Hts.Model.Merge.covers (s cs) p :=
+  Hts.Model.Merge.enclosed_covers s cs h p hp
+
+/-- … but not conversely: a function that cuts a chunk in two keeps every position and loses the chunk -/
+theorem coverage_does_not_imply_enclosure :
+    ∃ (s : List Hts.Model.Merge.Chunk → List Hts.Model.Merge.Chunk) (cs : List Hts.Model.Merge.Chunk),
+      Hts.Model.Merge.SortedB cs ∧ (∀ p, Hts.Model.Merge.covers cs p → Hts.Model.Merge.covers (s cs) p) ∧
+      ¬ ∀ c, c ∈ cs → Hts.Model.Merge.enclosedBy (s cs) c :=
+  Hts.Model.Merge.covers_not_enclosed
+
 /-! ### completeness of `internal.Index.Chunks` -/
 
 /-- the index after the sequence, optionally after `MergeChunks pre` -/
